@@ -84,7 +84,7 @@ func ConvertToProto(intreeLog *undo.BranchUndoLog) *BranchUndoLog {
 				}
 
 				for _, col := range row.Columns {
-					anyValue, err := convertInterfaceToAny(col.GetActualValue())
+					anyValue, err := convertColumnToAny(col)
 					if err != nil {
 						continue
 					}
@@ -116,7 +116,7 @@ func ConvertToProto(intreeLog *undo.BranchUndoLog) *BranchUndoLog {
 				}
 
 				for _, col := range row.Columns {
-					anyValue, err := convertInterfaceToAny(col.Value)
+					anyValue, err := convertColumnToAny(col)
 					if err != nil {
 						continue
 					}
@@ -166,7 +166,7 @@ func ConvertToIntree(protoLog *BranchUndoLog) *undo.BranchUndoLog {
 				}
 
 				for _, pbCol := range pbRow.Columns {
-					anyValue, err := convertAnyToInterface(pbCol.Value)
+					anyValue, err := convertAnyToColumnValue(pbCol.Value, types.JDBCType(pbCol.ColumnType))
 					if err != nil {
 						continue
 					}
@@ -198,7 +198,7 @@ func ConvertToIntree(protoLog *BranchUndoLog) *undo.BranchUndoLog {
 				}
 
 				for _, pbCol := range pbRow.Columns {
-					anyValue, err := convertAnyToInterface(pbCol.Value)
+					anyValue, err := convertAnyToColumnValue(pbCol.Value, types.JDBCType(pbCol.ColumnType))
 					if err != nil {
 						continue
 					}
@@ -221,6 +221,53 @@ func ConvertToIntree(protoLog *BranchUndoLog) *undo.BranchUndoLog {
 	}
 
 	return intreeLog
+}
+
+// convertColumnToAny carries a column value in the JSON form the column image gives it
+// (the one the JSON undo log holds): a bare JSON value decoded into interface{} loses
+// binary data, dates and times and every integer beyond 2^53
+func convertColumnToAny(col types.ColumnImage) (*any.Any, error) {
+	data, err := json.Marshal(&col)
+	if err != nil {
+		return nil, err
+	}
+	var holder struct {
+		Value json.RawMessage `json:"value"`
+	}
+	if err = json.Unmarshal(data, &holder); err != nil {
+		return nil, err
+	}
+	raw := []byte(holder.Value)
+	if len(raw) == 0 {
+		raw = []byte("null")
+	}
+	anyValue := &any.Any{}
+	bytesValue := &wrappers.BytesValue{
+		Value: raw,
+	}
+	err = anypb.MarshalFrom(anyValue, bytesValue, proto.MarshalOptions{})
+	return anyValue, err
+}
+
+// convertAnyToColumnValue reads the value back as the column image of that type does
+func convertAnyToColumnValue(anyValue *any.Any, columnType types.JDBCType) (interface{}, error) {
+	bytesValue := &wrappers.BytesValue{}
+	err := anypb.UnmarshalTo(anyValue, bytesValue, proto.UnmarshalOptions{})
+	if err != nil {
+		return nil, err
+	}
+	data, err := json.Marshal(struct {
+		ColumnType int16           `json:"type"`
+		Value      json.RawMessage `json:"value"`
+	}{int16(columnType), json.RawMessage(bytesValue.Value)})
+	if err != nil {
+		return nil, err
+	}
+	var col types.ColumnImage
+	if err = json.Unmarshal(data, &col); err != nil {
+		return nil, err
+	}
+	return col.Value, nil
 }
 
 func convertAnyToInterface(anyValue *any.Any) (interface{}, error) {
